@@ -107,7 +107,7 @@ def judge(case, g, text, obs, seed):
     for i in nu:
         if i in old_ids and old_ids[i] != new_ids[i]:
             mm("user-part-altered", ["C10"], {"id": i, "text": g.ids[i][1]})
-    if "fix" not in A and not RA.has_tag(tm, {"ct"}) and ou != nu:
+    if "fix" not in A and ou != nu:
         mm("user-part-lost", ["C10"], {"old": ou, "new": nu})
     # --- C10 with the specification as oracle: every user-controlled part that the model keeps is still there
     def nuser(t):
